@@ -18,6 +18,7 @@ use vh::{Cone, CompositeCone, CoreSettings, PrimalOrDualCone, SupportedConeT};
 const TOLF: &str = "(0x1p-40)%float"; // float model comparison: code 2 (information) below, 1 above
 const TOLP: i64 = -36; // property-level relative tolerance 2^-36 (about 1.5e-11), see design.d/C15.md
 const ALPHAS: [f64; 4] = [1.0, 0.99, 0.5, 1e-3];
+const HUGE_MAGS: &[f64] = &[1e15, 1e16, 1e17, 1e20, 1e30, 1e100, 1e150, 1e160, 1e300];
 
 fn settings(step: f64, amin: f64, msf: f64) -> CoreSettings<f64> {
     let mut s = CoreSettings::<f64>::default();
@@ -369,6 +370,46 @@ fn shift_case(g: &mut Gen, blks: &[Blk], z: &[f64], primal: bool, tag: &str) {
     g.count(&format!("shift/{}", tag));
 }
 
+/// vectors with one or two components of huge magnitude far outside the cone: the exact check is
+/// "strictly inside" (a margin of 1 is not representable next to 1e16)
+fn shift_huge_case(g: &mut Gen, blks: &[Blk], z: &[f64], primal: bool, tag: &str) {
+    let specs: Vec<_> = blks.iter().map(blk_spec).collect();
+    let pd = if primal { PrimalOrDualCone::PrimalCone } else { PrimalOrDualCone::DualCone };
+    let input = json!({"huge": true, "blocks": blks.iter().map(|b| format!("{}{}", blk_kind(b), blk_dim(b))).collect::<Vec<_>>(), "z": z, "primal": primal});
+    let r = guarded(|| {
+        let mut comp = CompositeCone::<f64>::new(&specs);
+        let mut z1 = z.to_vec();
+        vh::verif_shift_to_cone_interior(&mut z1, &mut comp, pd);
+        z1
+    });
+    let has_soc = blks.iter().any(|b| matches!(b, Blk::SOC(_)));
+    let opname = if has_soc { "shift_huge_soc" } else { "shift_huge_nn" };
+    let Some(z1) = r else { g.sink.case(opname, input, "1%N".into(), &[tag, "panic"]); return; };
+    if !z1.iter().all(|v| v.is_finite()) { g.sink.case(opname, input, "1%N".into(), &[tag, "nonfinite"]); return; }
+    // one case per cone class, so that a listed finding about one class never hides the other
+    let only = |kind: &str| -> String {
+        let mut off = 0;
+        let mut out = vec![];
+        for b in blks {
+            let n = blk_dim(b);
+            if blk_kind(b) == kind { out.push(format!("({}, {})", kind, cdylist(&z1[off..off + n]))); }
+            off += n;
+        }
+        format!("[{}]", out.join("; "))
+    };
+    let mut inp = input;
+    inp["out"] = json!(z1);
+    if blks.iter().any(|b| matches!(b, Blk::NN(_))) {
+        let coq = format!("(maxl [c_shift {t} {p} {b} {o}; p_shift_strict {od}])", t = TOLF, p = primal, b = fblocks(blks, z), o = fblocks(blks, &z1), od = only("KNN"));
+        g.sink.case("shift_huge_nn", inp.clone(), coq, &[tag]);
+    }
+    if blks.iter().any(|b| matches!(b, Blk::SOC(_))) {
+        let coq = format!("(maxl [p_shift_strict {od}])", od = only("KSOC"));
+        g.sink.case("shift_huge_soc", inp, coq, &[tag]);
+    }
+    g.count(&format!("shift/{}", tag));
+}
+
 // ------------------------------------------------------------------ generation
 fn generate(g: &mut Gen, thorough: bool) {
     let reps = if thorough { 6 } else { 1 };
@@ -497,6 +538,30 @@ fn generate(g: &mut Gen, thorough: bool) {
         let msf = *g.rng.pick(&[0.99, 0.9, 0.5]);
         composite_case(g, &blks, amax, msf, if with_nonsym { "mixed" } else { "symmetric" });
     }
+    // --- shift of vectors with huge components far outside the cone
+    let mags: &[f64] = if std::env::var("VERIF_HUGE_EXPLORE").is_ok() { &[1e15, 1e16, 1e17, 1e20, 1e30, 1e100, 1e150, 1e160, 1e300] } else { HUGE_MAGS };
+    for (mi, &m) in mags.iter().enumerate() {
+        for k in 0..(if thorough { 12 } else { 4 }) {
+            let mut blks = vec![];
+            let which = k % 4; // 0: NN only, 1: SOC huge in the vector part, 2: SOC huge negative head, 3: mixed
+            match which {
+                0 => blks.push(Blk::NN(2 + g.rng.below(5))),
+                1 | 2 => blks.push(Blk::SOC(2 + g.rng.below(6))),
+                _ => { blks.push(Blk::NN(1 + g.rng.below(4))); blks.push(Blk::SOC(2 + g.rng.below(5))); blks.push(Blk::Zero(1)); }
+            }
+            let ntot: usize = blks.iter().map(blk_dim).sum();
+            let mut z: Vec<f64> = (0..ntot).map(|_| (g.rng.unit() - 0.3) * 4.0).collect();
+            let fac = 1.0 + g.rng.unit();
+            match which {
+                0 => { let i = g.rng.below(ntot); z[i] = -m * fac; if g.rng.chance(1, 2) { let j = g.rng.below(ntot); z[j] = -m * 0.37; } }
+                1 => { let i = 1 + g.rng.below(ntot - 1); z[i] = if g.rng.chance(1, 2) { m * fac } else { -m * fac }; }
+                2 => { z[0] = -m * fac; }
+                _ => { let n0 = blk_dim(&blks[0]); z[g.rng.below(n0)] = -m * fac; }
+            }
+            let tag = format!("huge-1e{}-{}", m.log10().round() as i64, ["nn", "soc-vec", "soc-head", "mixed"][which]);
+            shift_huge_case(g, &blks, &z, (k + mi) % 2 == 0, &tag);
+        }
+    }
     // --- margins / shift
     for k in 0..(if thorough { 300 } else { 90 }) {
         let nb = 1 + g.rng.below(4);
@@ -552,6 +617,15 @@ fn replay(g: &mut Gen, v: &Value) {
                                     inp.get("interior").and_then(|b| b.as_bool()).unwrap_or(true)),
         "backtrack" => backtrack_case(g, inp["kind"].as_u64().unwrap() as usize, inp["p"].as_f64().unwrap(), &f64_vec(&inp["dq"]), &f64_vec(&inp["q"]),
                                       inp["a0"].as_f64().unwrap(), inp["amin"].as_f64().unwrap(), inp["step"].as_f64().unwrap(), "replay"),
+        "shift_huge_nn" | "shift_huge_soc" | "shift_huge" => {
+            let blks: Vec<Blk> = inp["blocks"].as_array().unwrap().iter().map(|b| {
+                let t = b.as_str().unwrap();
+                if let Some(n) = t.strip_prefix("KSOC") { Blk::SOC(n.parse().unwrap()) }
+                else if let Some(n) = t.strip_prefix("KNN") { Blk::NN(n.parse().unwrap()) }
+                else { Blk::Zero(t.strip_prefix("KZero").unwrap().parse().unwrap()) }
+            }).collect();
+            shift_huge_case(g, &blks, &f64_vec(&inp["z"]), inp["primal"].as_bool().unwrap_or(true), "replay")
+        }
         "psd_step" => {
             let m = |k: &str| -> Mat { inp[k].as_array().unwrap().iter().map(|r| f64_vec(r)).collect() };
             psd_step_case(g, &m("S"), &m("Z"), &m("dS"), &m("dZ"), inp["amax"].as_f64().unwrap(), "replay")
@@ -583,6 +657,8 @@ fn main() {
     for (x, y, amax) in corpus_soc() {
         soc_step_case(&mut g, &x, &y, &x, &y, amax, "corpus-F3", true);
     }
+    // F13 (known finding): absorption in the SOC margin for components beyond 2^53
+    shift_huge_case(&mut g, &[Blk::SOC(3)], &[-1e17, 3.0, 4.0], true, "corpus-F13");
     if let Some(p) = replay_file {
         let txt = std::fs::read_to_string(&p).expect("cannot read replay file");
         let v: Value = serde_json::from_str(&txt).expect("replay file is not JSON");
